@@ -60,4 +60,142 @@ theorem C08_no_write_after_shutdown (ops : List Op) (x : Bool) (sid : Nat) :
       openOk (s.ep x) = false :=
   no_write_of_inv _ (run_inv ops) x sid (run_stRange ops x)
 
+/-- non-vacuity of the two theorems above: a run in which Shutdown returns nil with two messages written on two
+streams, no transport failure (so the hypotheses are satisfiable and the conclusion talks about real messages) -/
+def demoOps : List Op :=
+  [.write false 0, .write false 1, .gather false [[(0, 0), (1, 1)]], .deliver false 0, .ackt true, .gather true [],
+   .deliver true 0, .shutdown false, .write false 0, .gather false [], .deliver false 1, .gather true [], .deliver true 1,
+   .gather false [], .deliver false 2, .read true 0, .read true 1]
+example : let s := Sys.init.run demoOps
+    (s.ep false).sd = 2 ∧ (s.ep false).connFailed = false ∧ (s.ep false).snd.wlog = [(0, 0, 0), (1, 1, 0)] ∧
+    (s.ep false).snd.attempts = 3 ∧ (s.ep true).rcv.rlog = [(0, 0, 0), (1, 1, 0)] ∧ (s.ep true).rcv.eofs = [(0, 1), (1, 1)] := by
+  decide
+
+/-- SHUTDOWN and SHUTDOWN-ACK are only ever due or sent by a drained endpoint: in every reachable state an
+endpoint in SHUTDOWN-SENT or SHUTDOWN-ACK-SENT has nothing queued and nothing in flight, and a Shutdown call
+that has returned nil means the association is closed -/
+theorem C08_shutdown_states_drained (ops : List Op) (x : Bool) :
+    let s := Sys.init.run ops
+    ((s.ep x).st = stShutdownSent ∨ (s.ep x).st = stShutdownAckSent →
+      (s.ep x).snd.pend = [] ∧ (s.ep x).inflight = 0 ∧ (s.ep x).hasData = false) ∧
+    ((s.ep x).sd = 2 → (s.ep x).st = stClosed ∧ (s.ep x).dead = true) := by
+  have inv := (run_inv ops x).1
+  refine ⟨fun h => ?_, fun h => ?_⟩
+  · obtain ⟨h1, h2⟩ := inv.ctl.drained h
+    refine ⟨h1, by simp [Ep.inflight, h2], by simp [Ep.hasData, h1, h2]⟩
+  · have hd := (inv.ctl.sdRet h).1
+    exact ⟨inv.ctl.deadSt.1 hd, hd⟩
+
+example : ((Sys.init.run [.write false 0, .gather false [[(0, 0)]], .deliver false 0, .ackt true, .gather true [], .deliver true 0,
+    .shutdown false]).ep false).st = stShutdownSent := by decide
+example : ((Sys.init.run demoOps).ep false).sd ≠ 0 := by decide
+
+/-- **Closed is absorbing.** Once the loops of an endpoint are gone (state CLOSED), no operation whatsoever —
+deliveries of any old packet, timer expiries, API calls — changes its state, its Shutdown result, what it accepted,
+sent and acknowledged, or what it received; it puts nothing on the wire; what was delivered to its streams stays
+available to its readers. -/
+theorem C08_closed_absorbing (ops : List Op) (x : Bool) (op : Op) :
+    let s := Sys.init.run ops
+    (s.ep x).dead = true →
+      let s' := s.step op
+      (s'.ep x).dead = true ∧ (s'.ep x).st = stClosed ∧ (s'.ep x).sd = (s.ep x).sd ∧
+      (s'.ep x).snd.wlog = (s.ep x).snd.wlog ∧ (s'.ep x).snd.sentq = (s.ep x).snd.sentq ∧ (s'.ep x).snd.cum = (s.ep x).snd.cum ∧
+      (s'.ep x).rcv.pl = (s.ep x).rcv.pl ∧ s'.hist x = s.hist x ∧
+      (∀ c, Got (s.ep x).rcv c → Got (s'.ep x).rcv c) :=
+  fun hd => closed_of_inv _ (run_inv ops) x op hd
+
+example : ((Sys.init.run demoOps).ep false).dead = true := by decide
+
+/-- **Stale, duplicated and reordered packets are harmless.** Delivering ANY packet ever sent by `x` (any index:
+old, duplicate, out of order) to the other side: never takes away a message already handed to its streams, changes
+nothing its readers have seen (reads and closure reports), leaves the sender side and both histories untouched,
+never moves an endpoint back to ESTABLISHED (no re-opening) nor out of CLOSED, and can make a Shutdown call
+return nil only if everything that side accepted has been delivered (the main theorem holds after the delivery). -/
+theorem C08_stale_harmless (ops : List Op) (x : Bool) (i : Nat) :
+    let s := Sys.init.run ops
+    let s' := s.step (.deliver x i)
+    (∀ c, Got (s.ep (!x)).rcv c → Got (s'.ep (!x)).rcv c) ∧
+    (s'.ep (!x)).rcv.rlog = (s.ep (!x)).rcv.rlog ∧ (s'.ep (!x)).rcv.eofs = (s.ep (!x)).rcv.eofs ∧
+    s'.ep x = s.ep x ∧ s'.hist x = s.hist x ∧ s'.hist (!x) = s.hist (!x) ∧
+    (∀ z, (s.ep z).st ≠ stEstablished → (s'.ep z).st ≠ stEstablished) ∧
+    (∀ z, (s.ep z).st = stClosed → (s'.ep z).st = stClosed) ∧
+    (∀ z, (s'.ep z).sd = 2 → (s'.ep z).connFailed = false → ∀ w ∈ (s'.ep z).snd.wlog, Got (s'.ep (!z)).rcv w) :=
+  stale_of_inv _ (run_inv ops) x i
+
+/-! ## liveness on explicit schedules, for every message count -/
+
+/-- **Fault-free shutdown completes, for every number of messages.** Side A writes `n` messages, calls Shutdown with
+all of them still queued (SHUTDOWN-PENDING), the data drains under the shutdown one round trip per message, then
+SHUTDOWN, SHUTDOWN-ACK and SHUTDOWN-COMPLETE are exchanged: both sides end CLOSED, A's Shutdown has returned nil
+without a transport failure, and all `n` messages sit, in order, in B's stream ready to be read. -/
+theorem C08_fault_free_completes (n : Nat) :
+    let s := Sys.init.run (schedule n ++ closingFaultFree n n)
+    s.a.dead = true ∧ s.a.st = stClosed ∧ s.a.sd = 2 ∧ s.a.connFailed = false ∧ s.b.dead = true ∧ s.b.st = stClosed ∧
+    s.a.snd.wlog = M n ∧ s.a.callAt = n ∧ s.b.rcv.store = M n := by
+  intro s
+  have h := closing_fault_free (formR n n) (formR_ready n)
+  rw [(formR_sizes n).1, (formR_sizes n).2] at h
+  have hs : s = (formR n n).run (closingFaultFree n n) := by
+    show Sys.init.run (schedule n ++ closingFaultFree n n) = _
+    rw [run_append, run_schedule]
+  rw [hs]
+  obtain ⟨d1, d2, d3, d4, d5, d6, d7, d8, d9⟩ := h
+  exact ⟨d1, d2, d3, by rw [d4]; rfl, d5, d6, by rw [d7]; rfl, by rw [d9]; rfl,
+    by rw [d8]; exact List.take_of_length_le (by rw [M_length]; exact Nat.le_refl _)⟩
+
+/-- the same run for each single loss in the shutdown sequence, recovered by T2-shutdown, for every message count:
+(1) the first SHUTDOWN lost — T2 at the caller, SHUTDOWN sent again; (2) the SHUTDOWN-ACK lost — T2 at the caller, the
+retransmitted SHUTDOWN finds the peer in SHUTDOWN-ACK-SENT which answers again; (3) the SHUTDOWN-COMPLETE lost — the
+caller is closed and its Shutdown has returned nil, the peer retransmits SHUTDOWN-ACK to nobody and ends CLOSED when its
+transport closes. In all three: both sides CLOSED, Shutdown returned nil without transport failure at the caller, and
+all `n` messages are in the peer's stream. -/
+theorem C08_recovers_from_single_losses (n : Nat) :
+    (∀ tail ∈ [closingShutdownLost n n, closingAckLost n n, closingCompleteLost n n],
+      let s := Sys.init.run (schedule n ++ tail)
+      s.a.dead = true ∧ s.a.st = stClosed ∧ s.a.sd = 2 ∧ s.a.connFailed = false ∧ s.b.dead = true ∧ s.b.st = stClosed ∧
+      s.a.snd.wlog = M n ∧ s.b.rcv.store = M n) := by
+  have key : ∀ tail, Done (formR n n) ((formR n n).run tail) →
+      (let s := Sys.init.run (schedule n ++ tail)
+       s.a.dead = true ∧ s.a.st = stClosed ∧ s.a.sd = 2 ∧ s.a.connFailed = false ∧ s.b.dead = true ∧ s.b.st = stClosed ∧
+       s.a.snd.wlog = M n ∧ s.b.rcv.store = M n) := by
+    intro tail h
+    show (let s := Sys.init.run (schedule n ++ tail); _)
+    rw [run_append, run_schedule]
+    obtain ⟨d1, d2, d3, d4, d5, d6, d7, d8, -⟩ := h
+    exact ⟨d1, d2, d3, by rw [d4]; rfl, d5, d6, by rw [d7]; rfl,
+      by rw [d8]; exact List.take_of_length_le (by rw [M_length]; exact Nat.le_refl _)⟩
+  have h1 := closing_shutdown_lost (formR n n) (formR_ready n)
+  have h2 := closing_ack_lost (formR n n) (formR_ready n)
+  have h3 := closing_complete_lost (formR n n) (formR_ready n)
+  rw [(formR_sizes n).1, (formR_sizes n).2] at h1 h2 h3
+  intro tail ht
+  simp only [List.mem_cons, List.mem_nil_iff, or_false] at ht
+  rcases ht with rfl | rfl | rfl
+  · exact key _ h1
+  · exact key _ h2
+  · exact key _ h3
+
+/-- **Shutdowns started by both sides at once complete as well**, for every message count: after A's `n` messages have
+drained under its Shutdown, B calls Shutdown too before A's SHUTDOWN is on the wire; the two SHUTDOWNs cross, each is
+answered by SHUTDOWN-ACK, each of those by SHUTDOWN-COMPLETE: both sides CLOSED, BOTH Shutdown calls returned nil. -/
+theorem C08_crossed_shutdown_completes (n : Nat) :
+    let s := Sys.init.run (schedule n ++ [.shutdown true] ++ closingCrossed n n)
+    s.a.dead = true ∧ s.a.st = stClosed ∧ s.a.sd = 2 ∧ s.a.connFailed = false ∧
+    s.b.dead = true ∧ s.b.st = stClosed ∧ s.b.sd = 2 ∧ s.b.connFailed = false := by
+  intro s
+  have hs : s = ((formR n n).step (.shutdown true)).run (closingCrossed n n) := by
+    show Sys.init.run (schedule n ++ [.shutdown true] ++ closingCrossed n n) = _
+    rw [List.append_assoc, schedule_then, List.singleton_append, run_cons]
+  obtain ⟨hr, hsa, hsb, ha, -⟩ := formR_readyBoth n
+  have h := closing_crossed _ hr
+  rw [hsa, hsb] at h
+  obtain ⟨d1, d2, d3, d4, d5, d6, d7, d8⟩ := h
+  have hb : ((formR n n).step (.shutdown true)).b.connFailed = false := by
+    simp [Sys.step, Sys.ep, Sys.put, formR, shutdownCall, Ep.hasData, stEstablished]
+  rw [hs]
+  exact ⟨d1, d2, d3, by rw [d4, ha]; rfl, d5, d6, d7, by rw [d8, hb]⟩
+
+/-- an instance of the schedules evaluated by the kernel (a test, `n = 1`) -/
+example : (Sys.init.run (schedule 1 ++ closingAckLost 1 1)).b.rcv.store = [(0, 0, 0)] := by decide
+
 end C08
